@@ -420,7 +420,9 @@ func (d *DirectoryOutputHandler) Load(
 
 	// WaitGroup to wait for all goroutines to finish
 	var waitGroup sync.WaitGroup
-	errChan := make(chan error, len(tree.Children))
+	// Every file download may report an error: never let a sender block (nobody reads the
+	// channel before all downloads are done), the first errors are enough to fail the load
+	errChan := make(chan error, len(tree.Children)+1)
 	// Recursively load the directory structure
 	if err := d.loadDirectoryRecursive(ctx, dirPath, tree.Root, childrenMap, progress, &waitGroup, errChan); err != nil {
 		return fmt.Errorf("failed to load directory structure: %w", err)
@@ -463,7 +465,10 @@ func (d *DirectoryOutputHandler) loadDirectoryRecursive(
 			console.GetLogger(ctx).Debugf("loading file for directory output %s from digest %s", filePath, digest)
 			err := d.downloadFile(ctx, digest, filePath, fileNode.IsExecutable, progress)
 			if err != nil {
-				errChan <- fmt.Errorf("failed to download file %s: %v", filePath, err)
+				select {
+				case errChan <- fmt.Errorf("failed to download file %s: %v", filePath, err):
+				default:
+				}
 			}
 		}(filePath, fileNode.Digest.Hash)
 	}
